@@ -2,8 +2,8 @@
 # Offline build of the framework: regenerate translated models from /repo, full .vo build of the Coq development.
 cd "$(dirname "$0")"
 export PYTHONHASHSEED=0 PYTHONPATH=/verif:/repo IPV8_VERIF=1 PYTHONDONTWRITEBYTECODE=1
-/venv/bin/python -m tools.regen || echo "warning: a translator aborted; the affected checks will report it"
-cd coq
+mkdir -p coq/gen; /venv/bin/python -m tools.regen || echo "warning: a translator aborted; the affected checks will report it"
+mkdir -p coq/gen; cd coq
 coq_makefile -f _CoqProject $(find lib model gen spec proofs props -name '*.v' | sort) -o Makefile > /dev/null || exit 1
 rm -f .vfiles
 mkdir -p ../replay
